@@ -149,10 +149,12 @@ CLAIMS["C13"] = {
             "error, never a newer one (snapshot_read with write_preserves / write_new / write_frame); so a request that fixes its "
             "target epoch once reads the tree of that epoch or fails. The pinned rule was wrong at lag >= 2 (lag2_witness, defect "
             "D4, repaired). Tied to the Rust by runs with read-only instances lagging 0..3 epochs, compared with the model and "
-            "judged by the published-epoch-hash oracle. PARTIAL: the clauses about requests interleaved with a commit at "
-            "storage-operation granularity (the per-update re-read of the epoch record in key_history, cache fills racing a commit) "
-            "and about change polling are not decided by this check yet.",
-    "note": BASE_NOTE + "Sequential lag only; concurrency clauses pending the deterministic scheduler.",
+            "judged by the published-epoch-hash oracle, AND by enumerating all interleavings (bounded preemptions) of read requests "
+            "on a second instance with a publish at storage-call granularity — which found that key_history re-read the epoch record "
+            "per update proof (defect D5, repaired). PARTIAL: a cache fill racing a commit on ONE storage manager (multi-thread) and "
+            "the change-poller clause are not decided.",
+    "note": BASE_NOTE + "The interleaving exploration is a search over schedules of the real code (it supplies the failing schedule); the "
+            "theorem is the record-level snapshot property those requests rely on.",
 }
 CLAIMS["C18"] = {
     "text": "PARTIAL by nature (computational cryptography). Proved in Lean: the byte string hashed into the VRF input is injective in "
@@ -179,5 +181,17 @@ CLAIMS["C11"] = {
             "epoch <= the epoch record (checked by the oracle, modelled in Dir.stateLeq / keyHistory). Hypotheses added by the proof: the "
             "database holds records under their own labels (WellKeyed) and statements range over the trie's node keys (stray records "
             "under unused keys are not constrained by the representation predicate).",
+}
+CLAIMS["C12"] = {
+    "text": "Proved in Lean over the transition system of concurrent publishes at storage-operation granularity (Conc.lean), for the "
+            "repaired protocol (a mutex shared by the clones held for the whole call), for EVERY schedule, any number of publishers, any "
+            "number of node reads, effective and no-op batches: commits reach the database with distinct consecutive epochs, every "
+            "publisher that returns epoch e after changing the directory is the one that wrote e, no-op publishes leave no trace, and "
+            "there is no deadlock (serializable, noop_no_effect, progress). The pinned protocol loses an epoch under a two-publisher "
+            "schedule (lost_epoch_witness, defect D6, repaired in /repo). Tied to the Rust by a deterministic scheduler: ALL schedules "
+            "with bounded preemptions of 2-3 publish calls on clones of the real Directory are executed, judged by the serialisability "
+            "oracle against a serial re-execution, and every run's storage-call trace is validated by the model.",
+    "note": BASE_NOTE + "Partial: preemption inside in-memory sections on a multi-thread runtime (DashMap shards, relaxed atomics) is not in "
+            "the model; the model abstracts node contents to epoch stamps.",
 }
 NOT_YET = {}
